@@ -213,6 +213,7 @@ theorem bal_cmd (fuel : Nat) (ih : Bal fuel) : ∀ s c, (execCmd (fuel+1) s c).1
       · rename_i e _
         cases e <;> simp [h1]
       · simp [h1]
+    · simp
   | fundef name body => simp [execCmd]
   | expErr => simp [execCmd]
   | assignErr => simp [execCmd]
